@@ -205,6 +205,10 @@ func runC08(c *Ctx) {
 	c.rule("R5", "a connection whose read or write failed is marked dead on every path (close-with-error), for every connection kind", 5)
 	checkIOErrorCloses(c)
 
+	// ---------------------------------------------------------------- R7
+	c.rule("R7", "a failed attempt reaches the retry loop as a non-nil error, promptly: waits wake on close, the close error is stored before the notification, no (nil, nil) result", 8)
+	checkAttemptOutcome(c)
+
 	// ---------------------------------------------------------------- R6
 	c.rule("R6", "what a retry transmits is still the query: pooled buffers of the transports are not used, re-sent or released again after their release (also when a callee released them)", 6)
 	checkBufferTypestate(c, fns)
@@ -314,6 +318,36 @@ func checkIsNewProducer(g *ssa.Function, idx int) (bool, string) {
 	if n == 0 {
 		return false, "no flag value found"
 	}
-	// the dial path with failed reservation must report not-new: some false leaf guarded after the dial
+	// converse: the flag is set to the constant true right where the connection was dialled, under no further condition
+	// (a dialled connection reported as reused makes the caller retry on fresh connections again and again)
+	setAtDial := false
+	eachInstr(g, func(in ssa.Instruction) {
+		st, ok := in.(*ssa.Store)
+		if !ok {
+			return
+		}
+		if b, isB := constBool(st.Val); !isB || !b {
+			return
+		}
+		if _, isAlloc := st.Addr.(*ssa.Alloc); !isAlloc {
+			return
+		}
+		if st.Block() == dial.Block() {
+			setAtDial = true
+		}
+	})
+	if !setAtDial {
+		// SSA may have lifted the variable: then a true leaf must come straight from the dial's own block
+		for _, r := range returnsOf(g) {
+			for _, lf := range expandCases(returnedValues(r)[idx], nil, 0) {
+				if b, ok := constBool(lf.val); ok && b && lf.pred == dial.Block() {
+					setAtDial = true
+				}
+			}
+		}
+	}
+	if !setAtDial {
+		return false, "the flag is not set to true unconditionally where the connection is dialled: a freshly dialled connection can be reported as a reused one, so its failure is retried instead of reported"
+	}
 	return good, why
 }
